@@ -4,7 +4,10 @@
 (* class `m` (echo of the plan step), the requests observed at the fake     *)
 (* api.DataHandler (`calls`: handler method, replication marker, stamp      *)
 (* classification, surviving list members as indices into the source list,  *)
-(* one equality bit per identity field group) and the returned error bit.   *)
+(* the operation type sent - grant / revoke -, one equality bit per         *)
+(* identity field group; under a name mapping the name groups are judged    *)
+(* against the image of the source names, see WriterReq.tla) and the         *)
+(* returned error bit.                                                       *)
 (* The acceptor binds cur / res from the log and requires the contract of   *)
 (* C20 in the new state - nothing of the design part is consulted.          *)
 EXTENDS WriterReq, IOUtils, SequencesExt
@@ -34,6 +37,9 @@ MsgOK(m) == /\ m.shape \in {"one"} \cup Malformed
             /\ \A i \in 1..Len(m.members) : m.members[i] \in {"L", "D"}
             /\ m.fail \in BOOLEAN /\ m.rid \in BOOLEAN
             /\ m.schema \in {"na", "basic", "v25"}
+            /\ MapOf(m) \in {"none", "cover", "other"}
+            /\ OpTypeOf(m) \in {"na", "grant", "revoke"}
+            /\ (m.shape = "one" /\ m.kind \in OpTypeKinds /\ "optype" \in DOMAIN m => m.optype # "na")
 
 TInit == Init /\ tr \in 1..Len(Traces) /\ l = 1
 
